@@ -187,7 +187,7 @@ func build(stmt *Statement, parent reflect.Value, types *typeDictionary) (v refl
 			if err := fn(ss, v, parent, types); err != nil {
 				return nilValue, err
 			}
-		case len(strings.Split(ss.Keyword, ":")) == 2:
+		case isPrefixedKeyword(ss.Keyword):
 			// Keyword is not known but it has a prefix so it might
 			// be an extension.
 			if y.addext == nil {
@@ -225,6 +225,14 @@ func build(stmt *Statement, parent reflect.Value, types *typeDictionary) (v refl
 		}
 	}
 	return v, nil
+}
+
+// isPrefixedKeyword reports whether kw has the form of the keyword of an
+// extension statement: a prefix and an identifier, neither of them empty,
+// separated by a colon (RFC 7950 6.3.1).
+func isPrefixedKeyword(kw string) bool {
+	parts := strings.Split(kw, ":")
+	return len(parts) == 2 && parts[0] != "" && parts[1] != ""
 }
 
 // initTypes creates the functions necessary to build a Statement into the
